@@ -280,6 +280,7 @@ class Segment:
         self.events = []
         self.results = []  # (k, spec, threads, conc, flx, grid_digest)
         self.first = {}
+        self.held = []
         self.states = set()
         self.probes = {}
         self.fired = {}
@@ -436,7 +437,13 @@ class Segment:
             self.probe("repeat_bit_identical")
         else:
             self.first[key] = (conc.copy(), flx.copy(), gd, k)
-        self.results.append((k, i, threads, conc, flx, [np.asarray(g) for g in grid]))
+        # results the caller already holds must not change when a later solve runs
+        for (pk, pc, pf, dc, df) in self.held:
+            if arr_digest(pc) != dc or arr_digest(pf) != df:
+                raise Violation("purity", "aliased-result", f"op {k}: the arrays returned by the solve at op {pk} changed while a later solve ran", {"op": k, "field": "returned-arrays"})
+        self.held.append((k, conc, flx, arr_digest(conc), arr_digest(flx)))
+        del self.held[:-6]
+        self.results.append((k, i, threads, conc.copy(), flx.copy(), [np.asarray(g).copy() for g in grid]))
         self.events.append([k, "solve", i, threads, arr_digest(conc), arr_digest(flx)])
 
     def run(self, refs, valid_export):
